@@ -119,8 +119,21 @@ struct X {
     out: String,
     pretty: bool,
     depth: usize,
+    /// 0: only the attribute itself; otherwise other attributes stand next to it whose names contain its name
+    decoy: u8,
 }
 impl X {
+    /// ` NAME="value"`, possibly with neighbours that a sloppy name comparison would take for it
+    fn at(&self, name: &str, val: &str) -> String {
+        let v = escape(val);
+        match self.decoy {
+            1 => format!(" O{}=\"decoy\" {}=\"{}\"", name, name, v),
+            2 => format!(" {}=\"{}\" {}X=\"decoy\"", name, v, name),
+            3 => format!(" x{}=\"decoy\" ho:{}=\"{}\"", name, name, v),
+            4 => format!(" {}-{}=\"decoy\" MY{}=\"decoy2\" {}=\"{}\"", name, name, name, name, v),
+            _ => format!(" {}=\"{}\"", name, v),
+        }
+    }
     fn nl(&mut self) {
         if self.pretty {
             self.out.push('\n');
@@ -152,7 +165,7 @@ impl X {
 fn render_element(x: &mut X, e: &Element, rich: bool) {
     match e {
         Element::Pdu(p) => {
-            x.open("fx:PDU", &format!(" ID=\"{}\"", escape(&p.id)));
+            x.open("fx:PDU", &x.at("ID", &p.id));
             x.text_el("ho:SHORT-NAME", &p.short_name);
             if let Some(d) = &p.desc {
                 x.text_el("ho:DESC", d);
@@ -163,14 +176,14 @@ fn render_element(x: &mut X, e: &Element, rich: bool) {
             for (seq, r) in &p.signals {
                 x.open("fx:SIGNAL-INSTANCE", " ID=\"I\"");
                 x.text_el("fx:SEQUENCE-NUMBER", &seq.to_string());
-                x.empty("fx:SIGNAL-REF", &format!(" ID-REF=\"{}\"", escape(r)));
+                x.empty("fx:SIGNAL-REF", &x.at("ID-REF", r));
                 x.close("fx:SIGNAL-INSTANCE");
             }
             x.close("fx:SIGNAL-INSTANCES");
             x.close("fx:PDU");
         }
         Element::Frame(f) => {
-            x.open("fx:FRAME", &format!(" ID=\"{}\"", escape(&f.id)));
+            x.open("fx:FRAME", &x.at("ID", &f.id));
             x.text_el("ho:SHORT-NAME", &f.short_name);
             if rich && f.byte_length % 2 == 1 {
                 // frames often carry a description of their own; the loader reads it and must not let it leak
@@ -181,7 +194,7 @@ fn render_element(x: &mut X, e: &Element, rich: bool) {
             x.open("fx:PDU-INSTANCES", "");
             for (seq, r) in &f.pdus {
                 x.open("fx:PDU-INSTANCE", " ID=\"I\"");
-                x.empty("fx:PDU-REF", &format!(" ID-REF=\"{}\"", escape(r)));
+                x.empty("fx:PDU-REF", &x.at("ID-REF", r));
                 x.text_el("fx:SEQUENCE-NUMBER", &seq.to_string());
                 x.close("fx:PDU-INSTANCE");
             }
@@ -203,15 +216,15 @@ fn render_element(x: &mut X, e: &Element, rich: bool) {
             x.close("fx:FRAME");
         }
         Element::Signal(id, c) => {
-            x.open("fx:SIGNAL", &format!(" ID=\"{}\"", escape(id)));
+            x.open("fx:SIGNAL", &x.at("ID", id));
             if rich {
                 x.text_el("ho:SHORT-NAME", id);
             }
-            x.empty("fx:CODING-REF", &format!(" ID-REF=\"{}\"", escape(c)));
+            x.empty("fx:CODING-REF", &x.at("ID-REF", c));
             x.close("fx:SIGNAL");
         }
         Element::Coding(id, b) => {
-            x.open("fx:CODING", &format!(" ID=\"{}\"", escape(id)));
+            x.open("fx:CODING", &x.at("ID", id));
             if rich && b.len() % 2 == 0 {
                 // the empty-element form of CODED-TYPE
                 x.text_el("ho:SHORT-NAME", id);
@@ -236,7 +249,8 @@ fn render_element(x: &mut X, e: &Element, rich: bool) {
 /// style 0: exactly the canonical event shape of Spec/FibexSpec.v (no wrapper, no white space);
 /// style 1: a document as tools write it (declaration, root, group wrappers, indentation, an ECU block)
 pub fn render_file(els: &[Element], style: u8, ecu_block: bool) -> Vec<u8> {
-    let mut x = X { out: String::new(), pretty: style == 1, depth: 0 };
+    let mut x = X { out: String::new(), pretty: style >= 1, depth: 0, decoy: style.saturating_sub(1) };
+    let style = style.min(1);
     if style == 1 {
         x.out.push_str("<?xml version=\"1.0\" encoding=\"UTF-8\"?>");
         x.open("fx:FIBEX", " xmlns:ho=\"http://www.asam.net/xml\" xmlns:fx=\"http://www.asam.net/xml/fbx\"");
@@ -418,10 +432,26 @@ pub fn gen_layout(rng: &mut Rng, o: &GenOpts) -> Layout {
         els.push(Element::Coding(id, rng.pick(&BASE_TYPES).to_string()));
     }
     let mut signal_ids = vec![];
+    // a ring of signals, each naming the next one where its coding should be
+    let ring = o.dangling && nsig >= 2 && rng.chance(1, 3);
     for i in 0..nsig {
         let id = if o.dup_ids && rng.chance(1, 3) && i > 0 { "SIG0".to_string() } else { format!("SIG{}", i) };
         signal_ids.push(id.clone());
-        let cref = if !coding_ids.is_empty() && rng.chance(5, 6) { rng.pick(&coding_ids).clone() } else { "C_none".to_string() };
+        // (with dangling references: also references that name an element of the wrong kind -- another signal,
+        // itself, a later signal (chains and cycles), a PDU -- which resolve to nothing)
+        let cref = if ring {
+            format!("SIG{}", (i + 1) % nsig)
+        } else if o.dangling && rng.chance(1, 4) {
+            match rng.below(4) {
+                0 => id.clone(),
+                1 | 2 => format!("SIG{}", rng.below(nsig as u64)),
+                _ => "P0".to_string(),
+            }
+        } else if !coding_ids.is_empty() && rng.chance(5, 6) {
+            rng.pick(&coding_ids).clone()
+        } else {
+            "C_none".to_string()
+        };
         els.push(Element::Signal(id, cref));
     }
     let mut pdu_ids = vec![];
@@ -433,7 +463,10 @@ pub fn gen_layout(rng: &mut Rng, o: &GenOpts) -> Layout {
             .map(|_| {
                 let r = match rng.below(6) {
                     0 if !signal_ids.is_empty() => rng.pick(&signal_ids).clone(),
+                    4 | 5 if ring => rng.pick(&signal_ids).clone(),
                     1 => "S_UNKNOWN".to_string(),
+                    2 if o.dangling && !coding_ids.is_empty() => rng.pick(&coding_ids).clone(),
+                    3 if o.dangling => "P0".to_string(),
                     _ => rng.pick(&STD_SIGNALS).to_string(),
                 };
                 (gen_seq(rng), r)
@@ -453,7 +486,11 @@ pub fn gen_layout(rng: &mut Rng, o: &GenOpts) -> Layout {
         let np = rng.below(4) as usize;
         let pdus = (0..np)
             .map(|_| {
-                let r = if o.dangling && rng.chance(1, 4) || pdu_ids.is_empty() { "P_missing".to_string() } else { rng.pick(&pdu_ids).clone() };
+                let r = if o.dangling && rng.chance(1, 4) || pdu_ids.is_empty() {
+                    rng.pick(&["P_missing", "ID_0", "SIG0", "C0"]).to_string()
+                } else {
+                    rng.pick(&pdu_ids).clone()
+                };
                 (gen_seq(rng), r)
             })
             .collect();
@@ -517,7 +554,7 @@ pub fn gen_c11(rng: &mut Rng, thorough: bool, out: &mut Cases) {
     for i in 0..n {
         let o = GenOpts { dup_ids: i % 5 == 3, dangling: i % 7 == 5 };
         let layout = gen_layout(rng, &o);
-        let style = if i % 3 == 0 { 0 } else { 1 };
+        let style = if i % 3 == 0 { 0 } else { 1 + (i % 5) as u8 };
         let ecu = rng.chance(1, 3);
         let files: Vec<Option<Vec<u8>>> = layout.iter().map(|els| Some(render_file(els, style, ecu))).collect();
         let mut w = W::new();
@@ -537,6 +574,67 @@ pub fn gen_c11(rng: &mut Rng, thorough: bool, out: &mut Cases) {
             out.push(50, w);
         }
     }
+    // the same documents with elements spelled the other ways XML allows (no abstract expectation: model vs loader)
+    for i in 0..n / 3 {
+        let o = GenOpts { dup_ids: false, dangling: i % 7 == 5 };
+        let layout = gen_layout(rng, &o);
+        let style = if i % 4 == 0 { 0 } else { 1 + (i % 5) as u8 };
+        let files: Vec<Option<Vec<u8>>> = layout.iter().map(|els| Some(respell_elements(rng, &render_file(els, style, i % 3 == 0)))).collect();
+        let mut w = W::new();
+        w_fibex_case(&mut w, &files, style, None);
+        out.push(50, w);
+    }
+}
+
+/// The other spellings XML allows for the same element: `<t>text</t>` written as the empty-element tag `<t/>`
+/// (text dropped), `<t/>` written as `<t></t>`, and an empty `<t></t>`.  What the loader makes of each is
+/// whatever the code says; the model follows the event list, so only model and implementation are compared.
+pub fn respell_elements(rng: &mut Rng, doc: &[u8]) -> Vec<u8> {
+    let s = String::from_utf8_lossy(doc).to_string();
+    let mut out = String::with_capacity(s.len());
+    let mut i = 0;
+    let b = s.as_bytes();
+    while i < b.len() {
+        if b[i] == b'<' && i + 1 < b.len() && b[i + 1] != b'/' && b[i + 1] != b'?' && b[i + 1] != b'!' {
+            if let Some(gt) = s[i..].find('>') {
+                let tag_all = &s[i + 1..i + gt];
+                let selfclosed = tag_all.ends_with('/');
+                let name = tag_all.trim_end_matches('/').split_whitespace().next().unwrap_or("").to_string();
+                if selfclosed {
+                    if rng.chance(1, 4) {
+                        out.push_str(&format!("<{}></{}>", tag_all.trim_end_matches('/').trim_end(), name));
+                        i += gt + 1;
+                        continue;
+                    }
+                } else {
+                    let close = format!("</{}>", name);
+                    let body_start = i + gt + 1;
+                    if let Some(c) = s[body_start..].find('<') {
+                        if s[body_start + c..].starts_with(&close) {
+                            // a leaf element with text
+                            match rng.below(8) {
+                                0 => {
+                                    out.push_str(&format!("<{}/>", tag_all));
+                                    i = body_start + c + close.len();
+                                    continue;
+                                }
+                                1 => {
+                                    out.push_str(&format!("<{}>{}", tag_all, close));
+                                    i = body_start + c + close.len();
+                                    continue;
+                                }
+                                _ => {}
+                            }
+                        }
+                    }
+                }
+            }
+        }
+        let ch = s[i..].chars().next().unwrap();
+        out.push(ch);
+        i += ch.len_utf8();
+    }
+    out.into_bytes()
 }
 
 fn mutate_doc(rng: &mut Rng, doc: &[u8]) -> Vec<u8> {
@@ -583,7 +681,14 @@ fn mutate_doc_inner(rng: &mut Rng, doc: &[u8]) -> Vec<u8> {
             if !hits.is_empty() {
                 let at = *rng.pick(&hits);
                 let end = at + s[at..].find('<').unwrap_or(0);
-                let junk = *rng.pick(&["éé", "1€x", "é", "𝄞1", "12é", "€", "-1", "1e3", " 7", "ü€ü"]);
+                let junk: String = if rng.chance(1, 2) {
+                    rng.pick(&["éé", "1€x", "é", "𝄞1", "12é", "€", "-1", "1e3", " 7", "ü€ü"]).to_string()
+                } else {
+                    // long ones with a multi-byte character at every possible byte offset (anything that cuts or
+                    // pads the text for a message)
+                    let k = rng.below(140) as usize;
+                    format!("{}{}{}", "1".repeat(k), rng.pick(&["é", "€", "𝄞"]), "9".repeat(rng.below(70) as usize))
+                };
                 d = [s[..at].as_bytes(), junk.as_bytes(), s[end..].as_bytes()].concat();
             }
         }
@@ -694,12 +799,19 @@ pub fn gen_c12(rng: &mut Rng, thorough: bool, out: &mut Cases) {
     }
     let n = if thorough { 20_000 } else { 1_500 };
     for i in 0..n {
-        let o = GenOpts { dup_ids: i % 5 == 3, dangling: i % 7 == 5 };
+        let o = GenOpts { dup_ids: i % 5 == 3, dangling: i % 3 != 1 };
         let layout = gen_layout(rng, &o);
-        let style = if i % 4 == 0 { 0 } else { 1 };
+        let style = if i % 4 == 0 { 0 } else { 1 + (i % 5) as u8 };
         let mut files: Vec<Option<Vec<u8>>> = layout.iter().map(|els| Some(render_file(els, style, rng.chance(1, 3)))).collect();
         let k = rng.below(files.len() as u64) as usize;
-        if rng.chance(1, 12) {
+        if i % 3 == 0 {
+            // left intact: odd but loadable documents (references into nowhere, to the wrong kind, in circles)
+            if i % 2 == 0 {
+                if let Some(d) = files[k].clone() {
+                    files[k] = Some(respell_elements(rng, &d));
+                }
+            }
+        } else if rng.chance(1, 12) {
             files[k] = None;
         } else if let Some(d) = files[k].clone() {
             files[k] = Some(mutate_doc(rng, &d));
